@@ -363,6 +363,14 @@ func (c *Conn) PeerClosed() bool {
 	return c.p.rst || c.in().finDelivered
 }
 
+// OtherEndClosed is the simulator's view of the other endpoint: it has been closed by its owner (or the pair was reset).
+func (c *Conn) OtherEndClosed() bool {
+	n := c.p.n
+	n.mu.Lock()
+	defer n.mu.Unlock()
+	return c.p.rst || c.p.closed[1-c.side]
+}
+
 // ResetPair aborts pair id.
 func (n *Net) ResetPair(id int) {
 	n.mu.Lock()
